@@ -5,7 +5,7 @@ from __future__ import annotations
 import ast
 from typing import Dict, List, Optional, Sequence, Set, Tuple
 
-from .common import where, norm, Inliner, mentions, calls_to, bound_args
+from .common import has_open_kwargs, where, norm, Inliner, mentions, calls_to, bound_args
 
 # which descriptor dict labels which axis of which array field
 AXIS_DESC = {
@@ -54,6 +54,9 @@ def field_provenance(ctx, obs, q: str, class_names: Sequence[str], fields: Seque
                 continue
             n += 1
             con = f'{fld} of the result derives from the source\'s {fld}'
+            if fld not in b and has_open_kwargs(prog, c):
+                obs.unk(rule, q, con, f'`{norm(c.node)[:90]}` passes a mapping whose keys are not all known', where(prog, f, c.node))
+                continue
             if fld not in b or b[fld][0] is None or (isinstance(b[fld][0], ast.Constant) and b[fld][0].value is None):
                 obs.bad(rule, q, con, f'`{norm(c.node)[:90]}` does not pass `{fld}`: the result loses the source\'s {fld}',
                         where(prog, f, c.node))
